@@ -7,6 +7,7 @@ import Proofs.C10.ExampleEcdsa
 import Proofs.C10.Checker
 import Proofs.C10.Bip322
 import Proofs.C10.Built
+import Proofs.C10.ExampleBuilt
 import Proofs.E2E.C10
 import Props.C09
 /-!
@@ -1867,5 +1868,14 @@ theorem closure_sh_pkh_secp256k1_built (vk : Bytes → Bool) (flags : Nat) (cx :
     (secpParsePub_built q hq) hk hsign der hder (by simp only [Gen.VarInt.MAX_SIZE]; omega) henc
     (by simp only [List.length_append, List.length_singleton]; omega)
     (by simp only [List.length_append, List.length_singleton]; omega) hne
+
+/-- non-vacuity of the `_built` forms, by the KERNEL: the concrete p2wpkh spend of `Proofs/C10/Example.lean` (its key
+    octets ARE `secpCompressedKey (q·G)`: `Ex.hbuilt`) satisfies every hypothesis of `closure_p2wpkh_secp256k1_built`
+    under all twenty-one flags -/
+example : ∃ ss wit, finalizedInput (fun _ => true) ⟨some (p2wpkh Ex.h), [], [],
+      [(secpCompressedKey ((EC.ops EC.secp256k1).mul Ex.q EC.secp256k1.G), Ex.der ++ [UInt8.ofNat 1])]⟩ = .ok (ss, wit) ∧
+    verifyScript (envOf secpCrypto Gen.Spend.EVERY_FLAG Ex.cx) ss (p2wpkh Ex.h) wit = .ok () :=
+  closure_p2wpkh_secp256k1_built (fun _ => true) Gen.Spend.EVERY_FLAG Ex.cx Ex.h 1 (by decide) (by decide) Ex.hq
+    (by decide) (by decide) (by decide) (by rw [Ex.hbuilt]; exact Ex.hh) Ex.hk Ex.hsign Ex.der Ex.hder
 
 end Props.C10
